@@ -31,15 +31,17 @@ MODELLED = {
     "cfuns.c:janetc_funopt": {"6b3b565ea172"},
     "cfuns.c:do_debug": {"1ab94982b1fe"},
     "cfuns.c:do_error": {"33eb438a7e28", "3467986d6084"},        # second: 0a37cea (argument forced into a near register; not modelled beyond the table row)
-    "cfuns.c:do_apply": {"03eddf3c9893"},
+    # cfuns.c:do_apply - no longer accepted by hash: its structure is extracted (extract_apply) and checked in Lean (apply_row_ok)
     "cfuns.c:do_yield": {"dabb5bd41c25"},
     "cfuns.c:do_put": {"81ff4d5b9a75", "ac7e7915cb4d"},          # second: with patches/fix-C15-target-alias.diff
     "cfuns.c:do_get": {"07f7bdd0343c"},
     "corelib.c:janet_quick_asm": {"e12b20bbbacb"},
-    "bytecode.c:janet_bytecode_remove_noops": {"0ad35bc10f6b"},
+    # bytecode.c:janet_bytecode_remove_noops - not by hash either: extract_noops asserts both loops and regenerates the retarget table
     "compile.c:janetc_call.selection": {"68f9fccd8e4b"},
     "specials.c:janetc_check_nil_form": {"495826777292"},
+    "compile.c:has_spliced": None,          # filled below (accepted text asserted structurally in extract_callsite)
 }
+del MODELLED["compile.c:has_spliced"]
 
 
 def check_fp(key, body, found):
@@ -335,6 +337,122 @@ def extract_selection(tree, found):
         raise ExtractError("janetc_if: constant-condition polarity test not of the expected shape")
     return paths
 
+
+# ------------------------------------------------------------------------------------------------ apply / call site / remove_noops structure
+def extract_apply(tree, found):
+    """structure of cfuns.c do_apply: the push loop (start, bound offset, stride, opcode), the two remainder cases, the push-array
+    opcode, the tail / non-tail call opcodes.  Lean checks it against the modelled `Spec.emitApply` (Props.C15.apply_row_ok)."""
+    src = csrc.strip_comments(csrc.read(tree, "src/core/cfuns.c"))
+    b = norm(csrc.func_body(src, "do_apply"))
+    m1 = re.search(r"for \(i = (\d+); i < janet_v_count\(args\) - (\d+); i \+= (\d+)\) "
+                   r"janetc_emit_sss\(c, (JOP_\w+), args\[i\], args\[i \+ 1\], args\[i \+ 2\], 0\);", b)
+    m2 = re.search(r"if \(i == janet_v_count\(args\) - (\d+)\) janetc_emit_ss\(c, (JOP_\w+), args\[i\], args\[i \+ 1\], 0\); "
+                   r"else if \(i == janet_v_count\(args\) - (\d+)\) janetc_emit_s\(c, (JOP_\w+), args\[i\], 0\);", b)
+    m3 = re.search(r"janetc_emit_s\(c, (JOP_\w+), janet_v_last\(args\), 0\);", b)
+    m4 = re.search(r"if \(opts\.flags & JANET_FOPTS_TAIL\) \{ janetc_emit_s\(c, (JOP_\w+), args\[0\], 0\); "
+                   r"target = janetc_cslot\(janet_wrap_nil\(\)\); target\.flags \|= JANET_SLOT_RETURNED; \} "
+                   r"else \{ target = janetc_gettarget\(opts\); janetc_emit_ss\(c, (JOP_\w+), target, args\[0\], 1\); \} return target;", b)
+    if not (m1 and m2 and m3 and m4):
+        raise ExtractError("do_apply: push loop / remainder cases / push-array / call phase not of the expected shape")
+    if not (m1.end() <= m2.start() and m2.end() <= m3.start() and m3.end() <= m4.start()):
+        raise ExtractError("do_apply: phases out of order")
+    emitted = re.findall(r"janetc_emit_\w+\(", b)
+    if len(emitted) != 6:
+        raise ExtractError("do_apply: %d emit calls, 6 expected" % len(emitted))
+    return dict(loopStart=int(m1.group(1)), loopBound=int(m1.group(2)), loopStride=int(m1.group(3)), loopOp=m1.group(4),
+                rem2At=int(m2.group(1)), rem2Op=m2.group(2), rem1At=int(m2.group(3)), rem1Op=m2.group(4),
+                lastOp=m3.group(1), tailOp=m4.group(1), callOp=m4.group(2))
+
+
+def extract_callsite(tree, found):
+    """compile.c: branches of janetc_pushslots (condition, emitted opcodes, how far `i` advances), has_spliced, and the emit at the end
+    of the generic route of janetc_call"""
+    src = csrc.strip_comments(csrc.read(tree, "src/core/compile.c"))
+    b = norm(csrc.func_body(src, "janetc_pushslots"))
+    found["compile.c:janetc_pushslots"] = fp(b)
+    m = re.search(r"for \(i = 0; i < count;\) \{ (.*) \} return has_splice \? \(-1 - min_arity\) : min_arity;", b)
+    if not m:
+        raise ExtractError("janetc_pushslots: loop / return not of the expected shape")
+    body = m.group(1)
+    parts = re.split(r"\} else if \(|\} else \{", body)
+    branches = []
+    for k, part in enumerate(parts):
+        part = part.strip()
+        if k == 0:
+            if not part.startswith("if ("):
+                raise ExtractError("janetc_pushslots: first branch is not an if")
+            part = part[4:]
+        if "{" in part:
+            cond, stmts = part.split("{", 1)
+            cond = cond.strip()
+            cond = cond[:-1].strip() if cond.endswith(")") else cond
+        else:
+            cond, stmts = "", part
+        stmts = stmts.strip().rstrip("}").strip()
+        ops = re.findall(r"janetc_emit_\w+\(c, (JOP_\w+),", stmts)
+        regs = re.findall(r"slots\[(i(?: \+ \d)?)\]", stmts)
+        adv = re.search(r"\bi(\+\+| \+= (\d+));", stmts)
+        rest = re.sub(r"janetc_emit_\w+\(c, JOP_\w+, [^;]*\);|\bi\+\+;|\bi \+= \d+;|min_arity\+\+;|min_arity \+= \d+;|has_splice = 1;", "", stmts).strip()
+        if rest or not adv or not ops:
+            raise ExtractError("janetc_pushslots: branch %d not recognised (%r)" % (k, stmts))
+        n = 1 if adv.group(1) == "++" else int(adv.group(2))
+        if regs != ["i", "i + 1", "i + 2"][:n]:
+            raise ExtractError("janetc_pushslots: branch %d pushes slots %s but advances by %d" % (k, regs, n))
+        ma = re.search(r"min_arity(\+\+| \+= (\d+));", stmts)
+        plain = 0 if not ma else (1 if ma.group(1) == "++" else int(ma.group(2)))
+        if ("has_splice = 1;" in stmts) != ("JOP_PUSH_ARRAY" in ops) or plain != n - (1 if "JOP_PUSH_ARRAY" in ops else 0):
+            raise ExtractError("janetc_pushslots: branch %d arity bookkeeping does not match what it pushes" % k)
+        branches.append((cond, ops, n))
+    hs = norm(csrc.func_body(src, "has_spliced"))
+    found["compile.c:has_spliced"] = fp(hs)
+    if not re.search(r"for \(i = 0; i < janet_v_count\(slots\); i\+\+\) \{ if \(slots\[i\]\.flags & JANET_SLOT_SPLICED\) return 1; \} return 0;", hs):
+        raise ExtractError("has_spliced: not a scan for JANET_SLOT_SPLICED over all slots")
+    cb = norm(csrc.func_body(src, "janetc_call"))
+    mg = re.search(r"!\(c->scope->flags & JANET_SCOPE_TOP\)\) \{ janetc_emit_s\(c, (JOP_\w+), fun, 0\); .*? \} else \{ retslot = janetc_gettarget\(opts\); "
+                   r"janetc_emit_ss\(c, (JOP_\w+), retslot, fun, 1\); \}", cb)
+    if not mg or "if (!specialized) { int32_t min_arity = janetc_pushslots(c, slots);" not in cb:
+        raise ExtractError("janetc_call: generic route (pushslots, then tail call / call of `fun`) not of the expected shape")
+    return branches, (mg.group(1), mg.group(2))
+
+
+def extract_noops(tree, ops):
+    """bytecode.c janet_bytecode_remove_noops: which opcodes have their jump operand rewritten, and in which field (shift 8 = D, 16 = E)"""
+    src = csrc.strip_comments(csrc.read(tree, "src/core/bytecode.c"))
+    b = csrc.func_body(src, "janet_bytecode_remove_noops")
+    nb_all = norm(b)
+    if not re.search(r"for \(int32_t i = 0; i < def->bytecode_length; i\+\+\) \{ uint32_t instr = def->bytecode\[i\]; uint32_t opcode = instr & 0x7F; "
+                     r"pc_map\[i\] = new_bytecode_length; if \(opcode != JOP_NOOP\) \{ new_bytecode_length\+\+; \} \} "
+                     r"pc_map\[def->bytecode_length\] = new_bytecode_length;", nb_all):
+        raise ExtractError("remove_noops: first loop (pc_map = number of non-noop instructions before i) not of the expected shape")
+    if not re.search(r"int32_t j = 0; for \(int32_t i = 0; i < def->bytecode_length; i\+\+\) \{ uint32_t instr = def->bytecode\[i\]; "
+                     r"uint32_t opcode = instr & 0x7F; int32_t old_jump_target = 0; int32_t new_jump_target = 0; switch \(opcode\) \{", nb_all) or \
+            not re.search(r"\} def->bytecode\[j\] = instr; if \(def->sourcemap != NULL\) \{ def->sourcemap\[j\] = def->sourcemap\[i\]; \} j\+\+; \}", nb_all):
+        raise ExtractError("remove_noops: second loop (copy kept instructions and their sourcemap rows to index j) not of the expected shape")
+    sw = [m.start() for m in re.finditer(r"switch \(opcode\) \{", b)]
+    if len(sw) != 1:
+        raise ExtractError("remove_noops: expected one switch over the opcode")
+    i = b.index("{", sw[0])
+    text = b[i + 1:csrc.match_brace(b, i) - 1]
+    table, dropped = [], []
+    for labels, body in _switch_groups(text, ops):
+        nb = norm(body)
+        if labels == ["default"]:
+            if nb != "break;":
+                raise ExtractError("remove_noops: default case does something")
+            continue
+        if nb == "continue;":
+            dropped += labels
+            continue
+        m = re.match(r"^old_jump_target = i \+ \(\(\(int32_t\)instr\) >> (\d+)\); new_jump_target = pc_map\[old_jump_target\]; "
+                     r"instr \+= \(uint32_t\)\(new_jump_target - old_jump_target \+ \(i - j\)\) << (\d+); break;$", nb)
+        if not m or m.group(1) != m.group(2) or m.group(1) not in ("8", "16"):
+            raise ExtractError("remove_noops: case %s is not a jump rewrite of the expected form" % labels)
+        for l in labels:
+            table.append((l, "d" if m.group(1) == "8" else "e"))
+    if dropped != ["JOP_NOOP"]:
+        raise ExtractError("remove_noops: the dropped opcodes are %s, expected only JOP_NOOP" % dropped)
+    return table
+
 # ------------------------------------------------------------------------------------------------ render
 def lname(c):
     return "." + gbc.lean_name(c)
@@ -356,6 +474,9 @@ def render(tree):
     funs = extract_corelib(tree, ops, found)
     reads, removable = extract_movopt(tree, ops, found)
     paths = extract_selection(tree, found)
+    ash = extract_apply(tree, found)
+    branches, generic_ops = extract_callsite(tree, found)
+    noop_table = extract_noops(tree, ops)
     o = [csrc.lean_header("src/core/cfuns.c, src/core/corelib.c, src/core/bytecode.c, src/core/compile.h"),
          "import JanetModel.Gen.Bytecode\n", "namespace JanetModel.Gen.Cfuns", "open JanetModel.Gen.Bytecode\n"]
     o.append("/-- constant argument of a specialisation (`janet_wrap_nil()` / `janet_wrap_integer(n)`) -/\ninductive Const where\n  | nil\n  | int (n : Int)\n  deriving DecidableEq, Repr, Inhabited\n")
@@ -424,6 +545,22 @@ def render(tree):
              "    head function, opcode of the jump that LEAVES the then-branch / the loop -/\nabbrev nilFastPaths : List (String × String × Op) := [")
     o.append(",\n".join('  ("%s", "%s", %s)' % (k[0], k[1], lname(v)) for k, v in sorted(paths.items())))
     o.append("]\n")
+    o.append("/-- structure of cfuns.c `do_apply`: `for (i = loopStart; i < n - loopBound; i += loopStride) loopOp`, `if (i == n - rem2At) rem2Op else if\n"
+             "    (i == n - rem1At) rem1Op`, `lastOp` on the last argument, `tailOp` / `callOp` on `args[0]` -/\nstructure ApplyShape where\n  loopStart : Nat\n  loopBound : Nat\n"
+             "  loopStride : Nat\n  loopOp : Op\n  rem2At : Nat\n  rem2Op : Op\n  rem1At : Nat\n  rem1Op : Op\n  lastOp : Op\n  tailOp : Op\n  callOp : Op\n  deriving DecidableEq, Repr, Inhabited\n")
+    o.append("abbrev applyShape : ApplyShape := ⟨%d, %d, %d, %s, %d, %s, %d, %s, %s, %s, %s⟩\n" % (
+        ash["loopStart"], ash["loopBound"], ash["loopStride"], lname(ash["loopOp"]), ash["rem2At"], lname(ash["rem2Op"]), ash["rem1At"],
+        lname(ash["rem1Op"]), lname(ash["lastOp"]), lname(ash["tailOp"]), lname(ash["callOp"])))
+    o.append("/-- branches of compile.c `janetc_pushslots`, in order: condition, opcodes emitted, how many slots the branch consumes -/\n"
+             "abbrev pushSlotsBranches : List (String × List Op × Nat) := [")
+    o.append(",\n".join('  ("%s", [%s], %d)' % (c, ", ".join(lname(x) for x in opl), n) for c, opl, n in branches))
+    o.append("]\n")
+    o.append("/-- the generic route of `janetc_call` ends with this opcode on the function slot: (tail position, otherwise) -/\n"
+             "abbrev genericCallOps : Op × Op := (%s, %s)\n" % (lname(generic_ops[0]), lname(generic_ops[1])))
+    o.append("/-- bytecode.c `janet_bytecode_remove_noops`: the opcodes whose jump operand is rewritten, with the field that holds it -/\n"
+             "abbrev removeNoopsRetargets : List (Op × Field) := [")
+    o.append(",\n".join("  (%s, .%s)" % (lname(x), f) for x, f in noop_table))
+    o.append("]\n")
     o.append("/-- fingerprints of the C bodies that are modelled by hand (informational) -/\ndef fingerprints : List (String × String) := [")
     o.append(",\n".join('  ("%s", "%s")' % kv for kv in sorted(found.items())))
     o.append("]\n")
@@ -444,6 +581,7 @@ def fingerprints(tree):
         extract_corelib(tree, ops, out)
         extract_movopt(tree, ops, out)
         extract_selection(tree, out)
+        extract_callsite(tree, out)
     finally:
         MODELLED.update(saved)
     return out
